@@ -239,7 +239,9 @@ def getattr(I, st, v, name):
         if isinstance(m, FuncVal) and "classmethod" in m.decorators():
             yield st, BoundMethod(m, v)
             return
-        yield st, I.thaw(m, st)
+        # a class-level list / dict / set / object is ONE object per path, like a module-level one (thaw_global): what
+        # `Cls.registry.append(x)` or `self.shared.append(x)` puts into it is seen by every later reader
+        yield st, I.thaw_global(m, st)
         return
     if isinstance(v, BuiltinClass):
         if name == "__name__":
@@ -596,7 +598,7 @@ def bind_member(I, st, m, inst, cls):
         if "classmethod" in d:
             return BoundMethod(m, cls)
         return BoundMethod(m, inst)
-    return I.thaw(m, st)
+    return I.thaw_global(m, st)  # a mutable class attribute read through an instance is the class's one object
 
 
 def module_attr(I, st, mv, name):
